@@ -35,7 +35,7 @@ Definition outcome_eqb (a b : outcome) : bool :=
   match a, b with
   | ROk x, ROk y => dyn_eqb x y
   | RTypeErr, RTypeErr | RPanicRec, RPanicRec | RPanicEsc, RPanicEsc | ROther, ROther => true
-  | RMerge, _ => true          (* same-step fan-in: outcome not predicted by this model *)
+  | RMerge, RMerge => true     (* same-step fan-in: the values are merged (mergeValues); the implementation must get there too *)
   | _, _ => false
   end.
 
